@@ -68,19 +68,19 @@ def snapshot_equal(a, b):
     return json.dumps(a, sort_keys=True) == json.dumps(b, sort_keys=True)
 
 
-def rt_values(sec):
+def rt_values(sec, annot=True):
     """what C05 compares: names, titles, sizes, values (floats to printed precision), annotations"""
     if sec is None:
         return None
     out = []
     for o in sec["o"]:
         if o["ty"] == "sec":
-            vs = [rt_values(x) for x in o["v"]]
+            vs = [rt_values(x, annot) for x in o["v"]]
         elif o["ty"] == "float":
             vs = ["%.6f" % float.fromhex(x) for x in o["v"]]
         else:
             vs = o["v"]
-        out.append((o["n"], o["ty"], vs, o["c"]))
+        out.append((o["n"], o["ty"], vs, o["c"] if annot else None))
     return (sec["t"], out)
 
 
@@ -99,12 +99,15 @@ def rt_check(verdict, b, g, desc, rep, sigprefix):
         probs.append(("reparse", "the printed text is rejected by the parser (%s): %r" % ([d["msg"] for d in rp[0]["diag"]][:2], t1[:300])))
     else:
         c1, c2 = rp[0]["ctx"].get("c1"), rp[0]["ctx"].get("c2")
-        if rt_values(c1) != rt_values(c2):
+        # a scalar without a value is written commented out ("# name=value"); annotation support reads
+        # that line back as the annotation of the option that follows it
+        unset_line = any(l.lstrip().startswith("# ") for l in t1.split("\n"))
+        if rt_values(c1, not unset_line) != rt_values(c2, not unset_line):
             probs.append(("values", "re-parsed configuration differs from the printed one: text %r" % t1[:300]))
         if rp[1]["ret"] != 0 or t2 != t3:
             probs.append(("fixpoint", "second print/parse cycle changes the text: %r -> %r" % (t2[:200], t3[:200])))
         has_annot = b.get("pre") or any(e["call"]["op"] == "setcomment" for e in b["calls"])
-        if not has_annot and t1 != t2:
+        if not has_annot and not unset_line and t1 != t2:
             probs.append(("reprint", "re-parsed configuration prints differently: %r -> %r" % (t1[:200], t2[:200])))
     if probs:
         verdict.violation("%s:rt-%s:%s" % (sigprefix, "+".join(sorted(set(k for k, _ in probs))), desc),
